@@ -72,6 +72,10 @@ def run_case(case):
         return res
     except pbt.CaseTimeout:
         raise
+    except auxref.Unbuildable:
+        # no Python value of an AuxData type can be handed to the API
+        res.tag("skipped:unbuildable-value")
+        return res
     except Exception as e:
         res.fail(pbt.exception_bucket("C01:construction", e), repr(e))
         return res
